@@ -910,11 +910,28 @@ func (env *Env) callExpr(x *ast.CallExpr) Val {
 			for _, a := range x.Args {
 				args = append(args, env.eval(a))
 			}
-			fn := tr.g.ld.lookupFunc(k)
-			if fn == nil || fn.Signature.Results().Len() != 1 {
+			var sig *types.Signature
+			if fn := tr.g.ld.lookupFunc(k); fn != nil {
+				sig = fn.Signature
+			} else if strings.HasPrefix(k, "funcfield:") {
+				// funcfield:pkg.Type.field - the field's function type
+				rest := strings.TrimPrefix(k, "funcfield:")
+				if i := strings.LastIndex(rest, "."); i > 0 {
+					if t := tr.g.ld.lookupType(rest[:i]); t != nil {
+						if st, ok := under(t).(*types.Struct); ok {
+							for j := 0; j < st.NumFields(); j++ {
+								if st.Field(j).Name() == rest[i+1:] {
+									sig, _ = under(st.Field(j).Type()).(*types.Signature)
+								}
+							}
+						}
+					}
+				}
+			}
+			if sig == nil || sig.Results().Len() != 1 {
 				break
 			}
-			rt := fn.Signature.Results().At(0).Type()
+			rt := sig.Results().At(0).Type()
 			cs := comps(rt)
 			if len(cs) != 1 {
 				break
